@@ -2090,7 +2090,10 @@ func (r *stack) revealDescend(inner Stack, idx int) (err error) {
 		case 1:
 			// descend into inner slice #0
 			child, _, _ := inner.index(0)
-			if assert, ok := child.(Interface); ok {
+			// a nil *Stack or *Condition satisfies Interface
+			// as well, but none of its methods can be called
+			_, cv, _ := derefPtr(assertReflect(child))
+			if assert, ok := child.(Interface); ok && cv.IsValid() {
 				if !assert.IsParen() && !inner.IsParen() {
 					err = r.revealSingle(0)
 					updated = child
